@@ -4,6 +4,7 @@
   of object `loadObject` tries, the origin of every field of a derived ReferenceScope, integer helpers.
 -/
 import Csvq.Model.Rel
+import Csvq.Model.Lateral
 namespace Csvq.Rel
 open Csvq
 
@@ -88,6 +89,37 @@ def deriveBy (o : ScopeCtor) (defined : List String) (s : NameScope) : NameScope
     temps := (match o.blocks with | .zero => [] | _ => s.temps),
     limitCount := (match o.recursiveCount with | .inherited => s.limitCount | _ => 0),
     root := (match o.recursionRoot with | .inherited => s.root | _ => false) }
+
+/-! ### the sub-query functions of eval.go (evalExists, evalSubqueryForValue, evalSubqueryForArray)
+
+  extract/relfacts translates the chain of length tests each of them runs after `Select` into a function of the
+  result's field and record count; `SubOut` says what is returned. -/
+
+inductive SubOut
+  | tooManyFields | noFields | tooManyRecords
+  | null                 -- `value.NewNull()`
+  | empty                -- `nil, nil`: no value at all (an empty list)
+  | firstCell            -- `view.RecordSet[0][0][0]`
+  | firstColumn          -- the first cell of every record, in order
+  | tern (t : Tern)
+  deriving Repr, DecidableEq
+
+/-- the value a scalar sub-query stands for, given what the translated function decides -/
+def scalarBy (o : SubOut) (res : Nat × List Row) : Except ResErr Profile :=
+  match o with
+  | .tooManyFields => .error .tooManyFields
+  | .tooManyRecords => .error .tooManyRecords
+  | .null => .ok nullP
+  | .firstCell => .ok ((((res.2[0]?).getD [])[0]?).getD nullP)
+  | _ => .error .notExist
+
+/-- the list a sub-query stands for in IN / ANY / ALL, given what the translated function decides -/
+def listBy (o : SubOut) (res : Nat × List Row) : Except ResErr (List Profile) :=
+  match o with
+  | .tooManyFields => .error .tooManyFields
+  | .empty => .ok []
+  | .firstColumn => .ok (res.2.map (fun r => (r[0]?).getD nullP))
+  | _ => .error .notExist
 
 /-- math.Floor(float64(a) / float64(b)) for positive ints below 2^53 -/
 def floorDivI (a b : Int) : Int := a / b
